@@ -169,6 +169,10 @@ func (s *linkedRun) verify(after string, full bool) bool {
 	// textual form: the elements in order
 	parts := make([]string, n)
 	for i, v := range s.t.m {
+		if v == nil {
+			parts[i] = "" // the entity's own ToString renders a nil element as the empty string
+			continue
+		}
 		parts[i] = fmt.Sprint(v)
 	}
 	if ts := s.t.l.ToString(); ts != strings.Join(parts, ",") {
@@ -254,6 +258,20 @@ func runLinked(c *vlib.Ctx, i int, r *vlib.Rand) {
 	next := 0
 	fresh := func() interface{} { // values are distinct across the lists of the pool
 		next++
+		// the element type is interface{}: nil, zero values and empty strings are elements like
+		// any other (added after seeded change C13r7-3: Remove(node) took a node holding nil
+		// for one that was "already removed")
+		switch x := r.Intn(24); {
+		case x == 0 || x == 1:
+			c.Count("linked_nil_elements_added", 1)
+			return nil
+		case x == 2:
+			return ""
+		case x == 3:
+			return 0
+		case x == 4:
+			return false
+		}
 		if r.Chance(1, 5) {
 			return fmt.Sprintf("s%d", next)
 		}
